@@ -9,6 +9,7 @@ import (
 )
 
 var checks = map[string]func(*lib.Run){
+	"C01": lib.CheckC01,
 	"C03": lib.CheckC03,
 }
 
